@@ -1166,6 +1166,13 @@ func (en *env) callExpr(v *ECall) tval {
 		// athead(x), in an iteration-ensures clause: the value the loop variable x had at the
 		// beginning of the iteration that just ended
 		id, ok := v.Args[0].(*EIdent)
+		if !ok && en.iterLoop != nil && en.iterLoop.headSt != nil {
+			// athead(e) for a heap expression: e read in the memory at the beginning of the
+			// iteration (identifiers inside e keep the iteration's own values)
+			c := *en
+			c.st = en.iterLoop.headSt
+			return c.eval(v.Args[0])
+		}
 		if !ok || en.iterLoop == nil {
 			en.fail("athead(x) needs a loop variable and an iteration-ensures clause")
 		}
